@@ -210,6 +210,10 @@ class Probe:
                 for b in group[i + 1:]:
                     vb = instances.child_value(cls, b, self.rng, O())
                     a2, k2 = list(args), dict(kwargs)
+                    if ref_decl.kind_of(d[b]) not in ("listagg", "listelem") and not ref_decl.overrides_validate_args(cls):
+                        # the same keyword NAMES with an explicit None first (valid), then with both set (must be refused)
+                        kn = dict(kwargs, **{b: None})
+                        self.must_accept("group-member-explicit-None", "kwargs", lambda: cls(*args, **kn), f"{a}+{b}=None")
                     if ref_decl.kind_of(d[b]) in ("listagg", "listelem"):
                         a2.append(vb)
                     else:
